@@ -113,13 +113,24 @@ func buildHandlers2(h map[string]handler) {
 			for _, v := range a {
 				switch x := v.(type) {
 				case Str:
+					if x.atom != nil {
+						panic(unsupported(name + " on atom string"))
+					}
 					if !x.isConc() {
+						// symbolic bytes: the library function's own body runs (package strings is
+						// plain Go on top of internal/bytealg, which is modelled)
+						if fn.Blocks != nil {
+							return e.callReal(fn, a)
+						}
 						panic(unsupported(name + " on symbolic string"))
 					}
 					ss = append(ss, x.conc)
 				case *Term:
 					k, ok := x.ConstInt64()
 					if !ok {
+						if fn.Blocks != nil {
+							return e.callReal(fn, a)
+						}
 						panic(unsupported(name + " with symbolic integer"))
 					}
 					is = append(is, k)
